@@ -36,21 +36,31 @@ inductive Payload where
   | notDict                 -- None, a string, a number, a list …: `isinstance(payload, dict)` is false
   | dictWithout             -- a dict without the key "confidence"
   | confNumeric (c : Rat)   -- `float(payload["confidence"])` succeeds with value c (float, int, bool, numeric string)
-  | confBad                 -- `float(payload["confidence"])` raises (word, empty string, None, list)
+  | confBad                 -- `float(payload["confidence"])` raises (word, empty string, None, list), or the lookup does
+  | unrenderable (withConfidence : Bool)
+                            -- `bool(payload)` / `str(payload)` raises while the vote's reasoning text is rendered (an
+                            -- object whose `__str__` / `__bool__` / `__len__` raises; a dict - with or without a valid
+                            -- confidence entry - holding a value whose `__repr__` raises)
   deriving Repr, DecidableEq
 
+/-- what `_protein_to_vote` makes of the payload: a confidence, or an exception (`.bad`: the voter is a failed voter).
+    The reasoning text is rendered inside `_protein_to_vote`, i.e. BEFORE the vote is appended and `votes_cast` is
+    incremented: a payload that cannot be rendered gives no ballot besides the failure ABSTAIN. -/
 def confOfPayload : Payload → Conf
   | .notDict => .absent
   | .dictWithout => .absent
   | .confNumeric c => .num c
   | .confBad => .bad
+  | .unrenderable _ => .bad
 
 /-- payload shape codes of the generator (quorum_tables.PAYLOADS) -/
 def payloadOfCode (code : Nat) (c : Rat) : Payload :=
   if code ≤ 3 then .notDict else if code ≤ 5 then .dictWithout
   else if code ≤ 9 then .confNumeric c          -- the number itself (also one outside [0, 1]: `toVote` clamps)
   else if code = 13 then .confNumeric 2         -- float("inf") / "Infinity" / 1e308: beyond the clamp
-  else .confBad                                 -- non-numeric, and NaN
+  else if code = 16 then .unrenderable false    -- str() / bool() / len() of the payload raises
+  else if code = 17 then .unrenderable true     -- a dict with a valid confidence and an unprintable value
+  else .confBad                                 -- non-numeric, NaN, a failing key lookup
 
 /-- shape code of "the agent's `express` raises" -/
 def raisesCode : Nat := 99
